@@ -159,8 +159,9 @@ func TestReplayC05(t *testing.T) {
 	if p == "" {
 		t.Skip()
 	}
-	// the driver rebuilt the shape of the replay file as lab package "r0000"
-	if !fx.Has("r0000") {
+	// the driver rebuilt the shape of the replay file as a lab package
+	pkg := os.Getenv("VERIF_REPLAY_PKG")
+	if !fx.Has(pkg) {
 		fmt.Printf("REPLAY-FAIL property=C05 key=%s\nshape did not build\n", os.Getenv("VERIF_REPLAY_BUILDKEY"))
 		if isKnown("C05", os.Getenv("VERIF_REPLAY_BUILDKEY")) {
 			fmt.Printf("REPLAY-KNOWN property=C05 key=%s\n", os.Getenv("VERIF_REPLAY_BUILDKEY"))
@@ -169,7 +170,7 @@ func TestReplayC05(t *testing.T) {
 		t.Fail()
 		return
 	}
-	f := fx.Get("r0000")
+	f := fx.Get(pkg)
 	o, _, _ := shapeVerdict("C05", f, envInt("VERIF_C05_MAXRECS", 120))
 	if o != nil {
 		o.Key = "C05/" + shapeClass(o, "C05") + "/shape=" + f.Root.Notation()
